@@ -18,6 +18,8 @@ from __future__ import annotations
 import ast
 
 from ..lib import *
+from ..twin import check_pairs
+from ._twins import pairs_for, all_pairs
 
 EXPLANATION = (
     "Token-flow, effect and naming-table rules over dask/array/random.py: seeds are materialised at graph "
@@ -165,6 +167,10 @@ def check(ctx):
             ctx.ob("NAME.methods", f, f"{cls}.{name} = _wrap_func(self, {name!r}, {', '.join(expected)}, size=size, chunks=chunks, **kwargs)", ok, "" if ok else f"calls _wrap_func(self, {fn!r}, {pos}, {kws})")
     ctx.count("distribution_methods", n_m)
     ctx.floor("distribution_methods", 70)
+    # ---------------- twin agreement with the array-expression engine's copies (see sa/twin.py)
+    n_tw = check_pairs(ctx, pairs_for("C28"))
+    ctx.count("twin_pairs", n_tw)
+    ctx.floor("twin_pairs", 5)
 
 
 VARIANTS = [
